@@ -12,6 +12,7 @@ CONSTANTS
   NViews = 2
   PokeTTLs = {}
   MaxOps = @@MAXOPS@@
+  Faults = FALSE
   Full = FALSE
   DetOnly = FALSE
 INIT Init
